@@ -626,9 +626,9 @@ def _interface_tracker(src, out):
 # ------------------------------------------------------------------------------------------------------------------
 # state-level translation (PackEntries, UnpackEntries, SetupSendRequest, SetupRecvRequest)
 class Ctx:
-    def __init__(self, prefix, H, T, B, count=None):
-        self.prefix, self.H, self.T, self.B, self.count = prefix, H, T, B, count
-        self.aux = []       # auxiliary definitions (loop bodies / conditions)
+    def __init__(self, prefix, H, T, B, count=None, tv="α"):
+        self.prefix, self.H, self.T, self.B, self.count, self.tv = prefix, H, T, B, count, tv
+        self.aux = []       # (unused since round five: loop bodies / conditions are emitted as local lambdas)
         self.n = 0
         self.acc = None
         self.lets = {}
@@ -687,24 +687,36 @@ def _uses(s, name):
     return name in repr(s)
 
 
+def _decl_local(s, ctx, env, later):
+    """`T x = e;` of a local that is never modified afterwards -> (lean name, converted e); anything else is loud"""
+    name = s[1]
+    if s[2] is None:
+        raise TranslateError("%s: uninitialised local '%s'" % (ctx.prefix, name))
+    if name in env.atoms or name in ctx.lets or name == ctx.acc or name == ctx.count:
+        raise TranslateError("%s: local '%s' shadows another name" % (ctx.prefix, name))
+    if any(_mods(r, name) for r in later):
+        raise TranslateError("%s: local '%s' is modified inside a loop body" % (ctx.prefix, name))
+    return "v_" + name, conv(s[2], env)
+
+
 def _aux_body(stmts, ctx):
+    """statements of a loop body -> (Lean lambda over the loop state, in-bounds predicate).  Locals of the enclosing
+    function are captured by the lambda with the value they had when they were declared (they are Lean `let`s)."""
     ctx.n += 1
-    nm = "%s_body%d" % (ctx.prefix, ctx.n)
     env = ctx.env()
-    for l in ctx.lets:
-        if any(_uses(s, l) for s in stmts):
-            raise TranslateError("%s: loop body refers to the local '%s'" % (ctx.prefix, l))
-    lines = ["def %s {α : Type} (h : Handle α) (count : Nat) (s : St α) : St α :=" % nm]
-    if not ctx.H:
-        lines = ["def %s {α : Type} (count : Nat) (s : St α) : St α :=" % nm]
-    for s in stmts:
+    parts = []
+    for i, s in enumerate(stmts):
+        if s[0] == "decl":
+            nm, v = _decl_local(s, ctx, env, stmts[i + 1:])
+            parts.append("let %s := %s" % (nm, v[0]))
+            env.atoms[s[1]] = (nm, v[1])
+            continue
         r = _sstmt(s, ctx, env)
         if r:
-            lines.append("  let s := " + r)
-    lines.append("  s")
-    ctx.aux.extend(["set_option linter.unusedVariables false in"] + lines)
-    ok = "St.okSizes" if any(_uses(s, "'size'") and _uses(s, ctx.T) and (ctx.T + ".size()") in _keys(s) for s in stmts) else "St.okIface"
-    return nm, ok
+            parts.append("let s := " + r)
+    lam = "(fun (s : St %s) => %s)" % (ctx.tv, "; ".join(parts + ["s"]))
+    ok = "St.okSizes" if any((ctx.T + ".size()") in _keys(s).split(" ") for s in stmts) else "St.okIface"
+    return lam, ok
 
 
 def _keys(s):
@@ -728,79 +740,179 @@ def _keys(s):
 
 
 def _aux_cond(e, ctx):
-    nm = "%s_cond%d" % (ctx.prefix, ctx.n + 1)
-    hd = "{α : Type} (h : Handle α) (count : Nat) (s : St α)" if ctx.H else "{α : Type} (count : Nat) (s : St α)"
-    ctx.aux.extend(["set_option linter.unusedVariables false in",
-                    "def %s %s : Bool := %s" % (nm, hd, boo(conv(e, ctx.env())))])
-    return nm
+    return "(fun (s : St %s) => %s)" % (ctx.tv, boo(conv(e, ctx.env())))
+
+
+def _dec_of(e, var):
+    """if expression e decrements `var`, the decrement (AST), else None"""
+    if e[0] in ("post", "un") and e[1] == "--" and key(e[2]) == var:
+        return ("num", 1)
+    if e[0] == "asg" and key(e[2]) == var:
+        if e[1] == "-=":
+            return e[3]
+        if e[1] == "=" and e[3][0] == "bin" and e[3][1] == "-" and key(e[3][2]) == var:
+            return e[3][3]
+    return None
+
+
+def _flip(c):
+    """comparison with the operands exchanged (`a>b` -> `b<a`)"""
+    return ("bin", {"<": ">", ">": "<", "<=": ">=", ">=": "<=", "==": "==", "!=": "!="}[c[1]], c[3], c[2])
+
+
+def _counted(s, ctx):
+    """`for(T v = a; v < N; ++v)` / `for(T v = N; v > a; --v)` (and the equivalent spellings of bound and step) whose
+    body does not mention v -> Lean term for the number of iterations; None when the loop is not of this shape.
+    The bound that is re-evaluated in every iteration must be a literal, an unmodified local or a parameter
+    (its Lean term does not mention the loop state)."""
+    init, c, step = s[1], s[2], s[3]
+    if init is None or init[0] != "decl" or init[2] is None or c is None or step is None or len(init) > 3:
+        return None
+    v = init[1]
+    body = [b for b in _unblock(s[4]) if not _is_assert(b)]
+    if any(_uses(b, "'%s'" % v) for b in body):
+        return None
+    up = _inc_of(step, v) is not None and key(_inc_of(step, v)) == "1"
+    down = _dec_of(step, v) is not None and key(_dec_of(step, v)) == "1"
+    if not (up or down):
+        return None
+    env = ctx.env()
+
+    def fixed(e):
+        t = nat(conv(e, env))
+        if "s." in t:
+            raise TranslateError("%s: bound of a counted loop depends on the loop state: %s" % (ctx.prefix, key(e)))
+        return t
+    if key(c) == v:                                   # for(..; v; --v)
+        c = ("bin", "!=", c, ("num", 0))
+    if c[0] == "un" and c[1] == "!" and c[2][0] == "bin" and c[2][1] == "==":   # !(v == N)
+        c = ("bin", "!=", c[2][2], c[2][3])
+    if c[0] != "bin" or c[1] not in ("<", "<=", ">", ">=", "!="):
+        return None
+    if key(c[3]) == v and key(c[2]) != v:
+        c = _flip(c)
+    if key(c[2]) != v or _uses(c[3], "'%s'" % v):
+        return None
+    a = nat(conv(init[2], env))
+    if up:
+        if c[1] == "<":
+            return "(%s - %s)" % (fixed(c[3]), a)
+        if c[1] == "<=":
+            return "(%s + 1 - %s)" % (fixed(c[3]), a)
+        if c[1] == "!=" and key(init[2]) == "0":      # terminates at N only when it starts below
+            return "(%s - %s)" % (fixed(c[3]), a)
+        return None
+    if c[1] == ">":
+        return "(%s - %s)" % (a, fixed(c[3]))
+    if c[1] == ">=" and c[3][0] == "num" and c[3][1] >= 1:
+        return "(%s + 1 - %s)" % (a, fixed(c[3]))
+    if c[1] == "!=" and key(c[3]) == "0":
+        return "(%s - 0)" % a
+    return None
 
 
 def _loop(s, ctx, lines, ind):
-    """for / while statement -> `let s := loopG ...`"""
-    hargs = " h" if ctx.H else ""
-    if s[0] == "while":
-        c, body = s[1], _unblock(s[2])
-        body = [b for b in body if not _is_assert(b)]
-        # while(C1) if(C2) S else break;   ==   while(C1 && C2) S
-        if len(body) == 1 and body[0][0] == "if" and body[0][3] is not None and _unblock(body[0][3]) == [("break",)]:
-            c = ("bin", "&&", c, body[0][1])
-            body = _unblock(body[0][2])
-        elif body and body[0][0] == "if" and body[0][3] is None and _unblock(body[0][2]) == [("break",)]:
-            c = ("bin", "&&", c, ("un", "!", body[0][1]))
-            body = body[1:]
-        cn = _aux_cond(c, ctx)
-        bn, ok = _aux_body(body, ctx)
-        lines.append("%slet s := loopG %s (%s%s count) (%s%s count) s.t.iface.length s" % (ind, ok, cn, hargs, bn, hargs))
+    """for / while statement -> `let s := loopG ...`; the loop condition and body become local lambdas"""
+    if s[0] == "for":
+        trips = _counted(s, ctx)
+        if trips is not None:
+            body = [b for b in _unblock(s[4]) if not _is_assert(b)]
+            bn, ok = _aux_body(body, ctx)
+            lines.append("%slet s := loopG %s (fun _ => true) %s %s s" % (ind, ok, bn, trips))
+            return
+        # for(init; c; step) body  ==  init; while(c) { body; step; }   (`continue` is outside the grammar)
+        init, c, step = s[1], s[2], s[3]
+        if c is None:
+            raise TranslateError("%s: for loop without condition" % ctx.prefix)
+        loop = ("while", c, ("block", _unblock(s[4]) + ([("expr", step)] if step is not None else [])))
+        own_acc = False
+        if init is not None:
+            if init[0] == "decl":
+                if len(init) > 3:
+                    raise TranslateError("%s: reference local '%s'" % (ctx.prefix, init[1]))
+                before = ctx.acc
+                _local(init, [loop], ctx, lines, ind)
+                own_acc = ctx.acc is not None and before is None
+            else:
+                r = _sstmt(init, ctx, ctx.env())
+                if r:
+                    lines.append("%slet s := %s" % (ind, r))
+        _loop(loop, ctx, lines, ind)
+        if own_acc:
+            ctx.acc = None
         return
-    init, c, step, body = s[1], s[2], s[3], [b for b in _unblock(s[4]) if not _is_assert(b)]
-    if init is None or init[0] != "decl" or init[2] is None or c is None:
-        raise TranslateError("%s: for loop outside the grammar" % ctx.prefix)
-    v = init[1]
-    if step is None:
-        # for(int acc = a; cond;) body   with body doing acc += ..
+    c, body = s[1], _unblock(s[2])
+    body = [b for b in body if not _is_assert(b)]
+    # while(C1) if(C2) S else break;   ==   while(C1) { if(!C2) break; S }   ==   while(C1 && C2) S
+    if len(body) == 1 and body[0][0] == "if" and body[0][3] is not None and _unblock(body[0][3]) == [("break",)]:
+        c = ("bin", "&&", c, body[0][1])
+        body = _unblock(body[0][2])
+    elif len(body) == 1 and body[0][0] == "if" and body[0][3] is not None and _unblock(body[0][2]) == [("break",)]:
+        c = ("bin", "&&", c, ("un", "!", body[0][1]))
+        body = _unblock(body[0][3])
+    elif body and body[0][0] == "if" and body[0][3] is None and _unblock(body[0][2]) == [("break",)]:
+        c = ("bin", "&&", c, ("un", "!", body[0][1]))
+        body = body[1:]
+    body = [b for b in body if not _is_assert(b)]
+    cn = _aux_cond(c, ctx)
+    bn, ok = _aux_body(body, ctx)
+    if (ctx.T + ".size()") in _keys(c).split(" "):
+        ok = "St.okSizes"
+    lines.append("%slet s := loopG %s %s %s s.t.iface.length s" % (ind, ok, cn, bn))
+
+
+def _local(s, rest, ctx, lines, ind):
+    """declaration of an integral local: an accumulator (state component) when `rest` modifies it, else a Lean `let`
+    holding the value of the initialiser at this point"""
+    if s[2] is None:
+        raise TranslateError("%s: uninitialised local '%s'" % (ctx.prefix, s[1]))
+    if len(s) > 3:
+        raise TranslateError("%s: reference local '%s'" % (ctx.prefix, s[1]))
+    if s[1] in ctx.lets or s[1] == ctx.acc or s[1] == ctx.count:
+        raise TranslateError("%s: local '%s' shadows another name" % (ctx.prefix, s[1]))
+    if any(_mods(r, s[1]) for r in rest):
         if ctx.acc is not None:
             raise TranslateError("%s: two accumulators" % ctx.prefix)
-        lines.append("%slet s := { s with acc := %s }" % (ind, nat(conv(init[2], ctx.env()))))
-        ctx.acc = v
-        cn = _aux_cond(c, ctx)
-        bn, ok = _aux_body(body, ctx)
-        lines.append("%slet s := loopG %s (%s%s count) (%s%s count) s.t.iface.length s" % (ind, ok, cn, hargs, bn, hargs))
-        ctx.acc = None
-        return
-    if _inc_of(step, v) is None or key(_inc_of(step, v)) != "1" or any(_uses(b, "'%s'" % v) for b in body):
-        raise TranslateError("%s: counted for loop outside the grammar" % ctx.prefix)
-    env = ctx.env()
-    a = nat(conv(init[2], env))
-    if c[0] == "bin" and key(c[2]) == v and c[1] in ("<", "!="):
-        trips = "(%s - %s)" % (nat(conv(c[3], env)), a)
-    elif c[0] == "bin" and key(c[2]) == v and c[1] == "<=":
-        trips = "(%s + 1 - %s)" % (nat(conv(c[3], env)), a)
-    elif c[0] == "bin" and key(c[3]) == v and c[1] in (">", "!="):
-        trips = "(%s - %s)" % (nat(conv(c[2], env)), a)
-    elif c[0] == "bin" and key(c[3]) == v and c[1] == ">=":
-        trips = "(%s + 1 - %s)" % (nat(conv(c[2], env)), a)
+        lines.append("%slet s := { s with acc := %s }" % (ind, nat(conv(s[2], ctx.env()))))
+        ctx.acc = s[1]
     else:
-        raise TranslateError("%s: loop bound outside the grammar: %s" % (ctx.prefix, key(c)))
-    bn, ok = _aux_body(body, ctx)
-    lines.append("%slet s := loopG %s (fun _ => true) (%s%s count) %s s" % (ind, ok, bn, hargs, trips))
+        v = conv(s[2], ctx.env())
+        lines.append("%slet %s := %s" % (ind, "v_" + s[1], v[0]))
+        ctx.lets[s[1]] = ("v_" + s[1], v[1])
+
+
+def _returns(stmts):
+    """does this statement list return on every path (syntactically)?"""
+    for s in stmts:
+        if s[0] == "return":
+            return True
+        if s[0] == "if" and s[3] is not None and _returns(_unblock(s[2])) and _returns(_unblock(s[3])):
+            return True
+    return False
 
 
 def _seq(stmts, ctx, lines, ind, ret):
-    """statements of one branch; `ret(expr or None, env)` renders the result.  Returns True when the branch returned."""
+    """statements of one branch; `ret(expr or None, env)` renders the result.  Returns True when the branch returned.
+    An `if` is a two-way branch whose arms are continued with the statements that follow it (so a guard clause
+    `if(c) {..; return x;} rest`, `if(c) {A} else {B} return y;` and `if(c) {A; return y;} else {B; return y;}` give the
+    same Lean term up to dead code)."""
     for i, s in enumerate(stmts):
         if s[0] == "return":
             lines.append(ind + ret(s[1], ctx.env()))
             return True
         if s[0] == "if":
-            if i != len(stmts) - 1 or s[3] is None:
-                raise TranslateError("%s: `if` that is not a final two-way branch" % ctx.prefix)
+            rest = stmts[i + 1:]
+            th = _unblock(s[2])
+            el = _unblock(s[3]) if s[3] is not None else []
+            th = th if _returns(th) else th + rest
+            el = el if _returns(el) else el + rest
             lines.append("%sif %s then" % (ind, boo(conv(s[1], ctx.env()))))
             saved = (dict(ctx.lets), ctx.acc)
-            if not _seq(_unblock(s[2]), ctx, lines, ind + "  ", ret):
+            if not _seq(th, ctx, lines, ind + "  ", ret):
                 raise TranslateError("%s: branch without return" % ctx.prefix)
             ctx.lets, ctx.acc = dict(saved[0]), saved[1]
             lines.append(ind + "else")
-            if not _seq(_unblock(s[3]), ctx, lines, ind + "  ", ret):
+            if not _seq(el, ctx, lines, ind + "  ", ret):
                 raise TranslateError("%s: branch without return" % ctx.prefix)
             ctx.lets, ctx.acc = saved
             return True
@@ -808,20 +920,10 @@ def _seq(stmts, ctx, lines, ind, ret):
             _loop(s, ctx, lines, ind)
             continue
         if s[0] == "decl":
-            if s[2] is None:
-                raise TranslateError("%s: uninitialised local '%s'" % (ctx.prefix, s[1]))
-            rest = stmts[i + 1:]
-            modified = any(("'asg'" in repr(r) or "'++'" in repr(r)) and _mods(r, s[1]) for r in rest)
-            if modified:
-                if ctx.acc is not None:
-                    raise TranslateError("%s: two accumulators" % ctx.prefix)
-                lines.append("%slet s := { s with acc := %s }" % (ind, nat(conv(s[2], ctx.env()))))
-                ctx.acc = s[1]
-            else:
-                v = conv(s[2], ctx.env())
-                lines.append("%slet %s := %s" % (ind, "v_" + s[1], v[0]))
-                ctx.lets[s[1]] = ("v_" + s[1], v[1])
+            _local(s, stmts[i + 1:], ctx, lines, ind)
             continue
+        if s[0] == "break":
+            raise TranslateError("%s: `break` outside the one loop shape of the grammar" % ctx.prefix)
         r = _sstmt(s, ctx, ctx.env())
         if r:
             lines.append("%slet s := %s" % (ind, r))
@@ -829,16 +931,15 @@ def _seq(stmts, ctx, lines, ind, ret):
 
 
 def _mods(stmt, var):
+    """may this statement change the local `var`?  (assignment, compound assignment, ++/--, or its address taken)"""
     found = []
 
     def walk(e):
         if isinstance(e, tuple):
-            if e and e[0] in ("asg", "post", "un") and len(e) >= 3:
-                try:
-                    if _inc_of(e, var) is not None or (e[0] == "asg" and key(e[2]) == var):
-                        found.append(1)
-                except Exception:
-                    pass
+            if e and e[0] == "asg" and key(e[2]) == var:
+                found.append(1)
+            if e and e[0] in ("post", "un") and len(e) >= 3 and e[1] in ("++", "--", "&") and key(e[2]) == var:
+                found.append(1)
             for x in e:
                 walk(x)
         elif isinstance(e, list):
@@ -872,6 +973,7 @@ def _pack_unpack(src, out):
     if not _seq(_parse_body(body), ctx, lines, "  ", ret_pack):
         raise TranslateError("PackEntries: no return")
     out.extend(ctx.aux)
+    out.append("set_option linter.unusedVariables false in")
     out.append("/-- `PackEntries::operator()`: (items packed, tracker, buffer) -/")
     out.append("def packEntries {α : Type} (h : Handle α) (t : Tracker) (b : MessageBuffer α) : Nat × Tracker × MessageBuffer α :=")
     out.append("  let count := 0")
@@ -969,10 +1071,7 @@ def _setup(src, out, consts):
         elif s[0] == "if" and i == len(st) - 1 and s[3] is None:
             final = s
         elif s[0] in ("while", "for"):
-            saved = dict(ctx.lets)
-            ctx.lets = {}
             _loop(s, ctx, lines, "  ")
-            ctx.lets = saved
         else:
             r = _sstmt(s, ctx, ctx.env())
             if r:
@@ -986,6 +1085,7 @@ def _setup(src, out, consts):
     consts["dataSendTag"] = _tag(a[4], "SetupSendRequest")
     env = ctx.env()
     out.extend(ctx.aux)
+    out.append("set_option linter.unusedVariables false in")
     out.append("/-- `SetupSendRequest::operator()` -/")
     out.append("def setupSend {α : Type} (h : Handle α) (t : Tracker) (b : MessageBuffer α) : SendSetup α :=")
     out.append("  let count := 0")
@@ -995,7 +1095,7 @@ def _setup(src, out, consts):
     out.append("    message := if %s then some (s.b.cells.take %s) else none }" % (boo(conv(final[1], env)), nat(conv(a[1], env))))
     # SetupRecvRequest
     ps, body = _functor(src, "SetupRecvRequest", "SetupRecvRequest::operator()", 4)
-    ctx = Ctx("setupRecv", None, ps[1], ps[2])
+    ctx = Ctx("setupRecv", None, ps[1], ps[2], tv="β")
     st = _parse_body(body)
     lines = []
     if not st or st[-1][0] != "if" or st[-1][3] is not None:
